@@ -100,6 +100,19 @@ public:
         return m_priority;
     }
 
+    /**
+     * Determine whether the element has a priority attribute.  Without
+     * one, getPriority() returns negative infinity, a value the attribute
+     * itself can also produce.
+     *
+     * @return true if the priority attribute was specified
+     */
+    bool
+    hasPriority() const
+    {
+        return m_hasPriority;
+    }
+
     virtual const XalanQName&
     getNameAttribute() const;
 
@@ -162,6 +175,8 @@ private:
     const XalanQName*   m_mode;
 
     double              m_priority;
+
+    bool                m_hasPriority;
 };
 
 
